@@ -118,6 +118,14 @@ def _create_files(  # noqa: C901, PLR0912, PLR0913
             _failed.add(dest_path)
             onerror(src_path, dest_path, exc)
 
+        if isinstance(fs, LocalFileSystem) and links and links != ["copy"]:
+            # NOTE: a link is never created over an existing path (transfer
+            # skips such a path silently), and whatever sits there is not
+            # this entry's data
+            for dest_path in dest_paths:
+                if fs.islink(dest_path) or fs.isfile(dest_path):
+                    fs.remove(dest_path)
+
         transfer(
             src_fs,
             list(src_paths),
